@@ -17,6 +17,7 @@ from .simfs import RealFS, SimFS
 from .world import World, resolve
 
 
+USER_ACTIONS = ("update", "scribble", "new_coords", "new_shell", "new_container", "write_file", "new_mole", "new_iodata")
 EVENT_BUDGET = 600000  # traced line events per run after which faults are no longer placed (deterministic)
 
 
@@ -54,6 +55,7 @@ class Run:
         self.violation = None
         self.other_violations = []
         self.traced_events = 0
+        self.held = []
         fs_kind = self.cfg.get("fs", "sim")
         self.make_fs = RealFS if fs_kind == "real" else SimFS
         self.fs = self.make_fs()
@@ -141,6 +143,52 @@ class Run:
         if why:
             raise Violation(["C18"], "O5", bound.label, f"{what}: {why}")
 
+    def _o6_twin(self, shells, label, op):
+        """Oracle O6: an updated and renormalised shell behaves like a freshly constructed identical one.
+
+        The twin is built from copies of the current parameters, so it cannot carry anything remembered
+        from before the update - including things remembered since *construction*, which the
+        history-free world (that applies the same updates) would remember as well.
+        """
+        api = self.api
+        w = self.world
+        pts = np.array([[0.1, -0.2, 0.3], [0.9, 0.4, -0.7]])
+        for sh in shells[:3]:
+            try:
+                twin = type(sh)(sh.angmom, np.array(sh.coord), np.array(sh.coeffs), np.array(sh.exps), sh.coord_type,
+                                icenter=sh.icenter)
+            except Exception:  # noqa: BLE001 - parameters the constructor rejects are not twin material
+                self.bump(self.stats, "o6_twin_not_constructible")
+                continue
+            others = [e.obj for e in w.shells if e.obj is not sh and e.obj.angmom <= 3][:1]
+            tol = op.get("twin_tol", 1e-4)
+            battery = [
+                ("overlap_integral", lambda b: api.fn["overlap_integral"](b)),
+                ("overlap_integral(tol_screen)", lambda b: api.fn["overlap_integral"](b, tol_screen=tol)),
+                ("kinetic_energy_integral", lambda b: api.fn["kinetic_energy_integral"](b)),
+                ("evaluate_basis", lambda b: api.fn["evaluate_basis"](b, pts)),
+                ("evaluate_deriv_basis", lambda b: api.fn["evaluate_deriv_basis"](b, pts, np.array([1, 0, 1]))),
+            ]
+            if sh.angmom > 3:
+                battery = battery[:2]
+            for name, f in battery:
+                with Ambient(None):
+                    try:
+                        a = outcome_ok(f([sh] + others))
+                    except Exception as exc:  # noqa: BLE001
+                        a = outcome_raise(exc)
+                    try:
+                        b = outcome_ok(f([twin] + others))
+                    except Exception as exc:  # noqa: BLE001
+                        b = outcome_raise(exc)
+                try:
+                    compare_outcomes(a, b, self.stats)
+                except Mismatch as m:
+                    raise Violation(["C19"], "O6", name,
+                                    f"after {label} + renormalisation the shell and a freshly constructed identical "
+                                    f"shell give different results: {m}")
+                self.bump(self.stats, "o6_twin_comparisons")
+
     def _o4(self, shells, label):
         for sh in shells:
             why = check_normalised(self.api, sh, self.stats)
@@ -152,6 +200,15 @@ class Run:
 
     # ------------------------------------------------------------------ one operation
     def step(self, i, op):
+        entry = self._step(i, op)
+        if op["op"] in USER_ACTIONS:
+            # the user's own actions (in-place parameter updates, scribbles...) may legitimately change
+            # values handed out earlier that share storage with the user's objects
+            for h in self.held:
+                h[1] = snap(h[0])
+        return entry
+
+    def _step(self, i, op):
         w = self.world
         bound = resolve(w, op)
         zr = self.zy.op(op)
@@ -187,6 +244,8 @@ class Run:
                                     f"{_short(pre_args[2][idx[0]] if idx else pre_args)} -> "
                                     f"{_short(post_args[2][idx[0]] if idx else post_args)}")
             self._o2(bound, out, zr, "state-building call")
+            if bound.importy or op["op"] == "query":
+                self._check_held_results(bound)
             if out[0] == "ok" and bound.post:
                 bound.post(value)
             if bound.importy:
@@ -196,6 +255,7 @@ class Run:
                     self._o4([value], bound.label)
                 elif op["op"] == "update":
                     self._o4(bound.touched, bound.label)
+                    self._o6_twin(bound.touched, bound.label, op)
                 elif op["op"] in ("make_contr", "from_pyscf") and isinstance(value, tuple):
                     self._o4(list(value)[:6], bound.label)
             return entry
@@ -305,9 +365,27 @@ class Run:
         entry["cls"] = outcome_class(out)
         entry["kinds"] = kinds
         self.triples.add((bound.label, _env_class(env), outcome_class(out)))
-        if out[0] == "ok" and isinstance(value, np.ndarray) and len(w.results) < 64:
-            w.results.append(value)
+        self._check_held_results(bound)
+        if out[0] == "ok" and isinstance(value, (np.ndarray, tuple, list, dict)):
+            if isinstance(value, np.ndarray) and len(w.results) < 64:
+                w.results.append(value)
+            if len(self.held) < 24:
+                self.held.append([value, snap(value), bound.label, bound.importy])
         return entry
+
+    def _check_held_results(self, bound):
+        """Results handed out earlier belong to the user; a later call must not change them."""
+        for h in self.held:
+            now = snap(h[0])
+            if now != h[1]:
+                if isinstance(h[0], np.ndarray) and any(h[0] is r for r in self.world.scribbled):
+                    h[1] = now  # the user's own scribble
+                    continue
+                props = ["C18", "C19"] if (h[3] or bound.importy) else ["C19"]
+                raise Violation(props, "O1-result", bound.label,
+                                f"a value returned earlier by {h[2]} and held by the user was changed by this call: "
+                                f"{_short(h[1])} -> {_short(now)}")
+        self.world.scribbled = []
 
     def _faulted_update(self, bound, op, zr, entry):
         """Parameter update whose renormalisation is aborted / runs under hostile ambient state.
@@ -377,6 +455,7 @@ class Run:
         self._o2(bound, o, zr, "renormalisation after an aborted one")
         if o[0] == "ok":
             self._o4(touched, bound.label)
+            self._o6_twin(touched, bound.label, op)
         entry["out"] = outcome_digest(o)
         entry["cls"] = outcome_class(o)
         entry["kinds"] = kinds
